@@ -429,6 +429,19 @@ def rope_encode(r, encoding="utf-8", errors="strict"):
             if maxel_of(ch.base) <= limit:
                 out.append(ch)
                 continue
+            whole = const_of(ch.lo) == 0 and simp(ch.hi - ch.base.len).eq(z3.IntVal(0))
+            if c.is_true(ch.length() <= 8):
+                # a short slice: decide per element (a character outside the slice must not matter)
+                n = c.concretize(ch.length(), 0, 8, "slice length")
+                items = [ch.base.sel(simp(ch.lo + k)) for k in range(n)]
+                for it in items:
+                    if not c.branch(it <= limit):
+                        if limit == 127 and enc.startswith("utf"):
+                            raise OutOfReach("utf-8 encoding of non-ASCII symbolic element")
+                        raise UnicodeEncodeError(enc, "?", 0, 1, "ordinal not in range")
+                if items:
+                    out.append(BL(items))
+                continue
             if c.branch(all_le(ch.base, limit)):
                 c.ghost[("maxel", ch.base.name)] = limit
                 out.append(ch)
@@ -445,6 +458,8 @@ def rope_encode(r, encoding="utf-8", errors="strict"):
                 continue
             if c.is_true(ch.length() == 0):
                 continue
+            if not whole:
+                raise OutOfReach("encoding a proper slice of a text that has unencodable characters somewhere")
             c.assume(ch.length() > 0)
             raise UnicodeEncodeError(enc, "?", 0, 1, "ordinal not in range")
         if isinstance(ch, BX) and ch.key[0] in ("lower", "upper", "fmt", "repr", "fstr"):
